@@ -14,8 +14,8 @@ CORE_RULES = {"Root": [gen_lex.named("Ident", "[a-zA-Z]+"), gen_lex.named("Int",
 
 PARSE_EPS = ["ParseString", "ParseBytes", "Parse", "ParseString+Trace", "ParseBytes+Trace", "ParseFromLexer",
              "Parse(DataErrReader)", "Parse(OneByteReader)", "Parse(named reader)", "Parse(no filename, reader named fn)",
-             "ParseFromLexer(Parser.Lexer())"]
-LEX_EPS = ["Lex", "def.Lex", "def.LexString", "def.LexBytes", "Lex(DataErrReader)", "Lex(named reader)", "def.Lex(DataErrReader)"]
+             "ParseFromLexer(Parser.Lexer())", "Parse(part-read strings.Reader)", "Parse(part-read bytes.Reader)"]
+LEX_EPS = ["Lex", "def.Lex", "def.LexString", "def.LexBytes", "Lex(DataErrReader)", "Lex(named reader)", "def.Lex(DataErrReader)", "def.Lex(part-read reader)"]
 
 
 def run(pid, tier, args):
@@ -112,7 +112,7 @@ def run(pid, tier, args):
                     # inputs beyond the case file (leading byte-order mark): relational checks only
                     outs = {ep: eps[ep] for ep in PARSE_EPS if ep in eps}
                     louts = {ep: eps[ep] for ep in ("Lex", "Lex(DataErrReader)", "Lex(named reader)") if ep in eps}
-                    dl = {ep: eps[ep] for ep in ("def.Lex", "def.LexString", "def.LexBytes", "def.Lex(DataErrReader)") if ep in eps}
+                    dl = {ep: eps[ep] for ep in ("def.Lex", "def.LexString", "def.LexBytes", "def.Lex(DataErrReader)", "def.Lex(part-read reader)") if ep in eps}
                     if len(set(outs.values())) > 1 or len(set(louts.values())) > 1 or len(set(dl.values())) > 1:
                         nb = min(key[2] - len(g["inputs"]), len(g["inputs"]) - 1)
                         v.violation("[%s lexer] grammar %s lookahead %d extra input #%d (BOM+%r or a very long token): entry points disagree: %s" % (variant, key[0], key[1], key[2] - len(g["inputs"]), g["inputs"][nb]["s"], json.dumps({**outs, **louts, **dl})[:500]),
@@ -134,7 +134,7 @@ def run(pid, tier, args):
                     other = next(ep for ep in pl if pl[ep] != pl["Lex"])
                     bad = "Parser.Lex gives %s but %s gives %s" % (pl["Lex"][:100], other, pl[other][:100])
                 if not bad and variant.endswith("upper"):
-                    dl = {ep: eps[ep] for ep in ("def.Lex", "def.LexString", "def.LexBytes", "def.Lex(DataErrReader)") if ep in eps}
+                    dl = {ep: eps[ep] for ep in ("def.Lex", "def.LexString", "def.LexBytes", "def.Lex(DataErrReader)", "def.Lex(part-read reader)") if ep in eps}
                     if len(set(dl.values())) > 1:
                         bad = "the definition's Lex/LexString/LexBytes disagree"
                 s_after, s_out = spec.get(key, (None, None))
